@@ -513,9 +513,9 @@ def _idents(text: str) -> List[str]:
 @rule(
     "L10",
     "ALIAS-SAFE: `X = F(..X..)` hands X to the procedure both as an argument and as the result (by reference); a procedure standing in for a function never reads an input parameter of the result's type after it may have written the result",
-    ["C20", "C03", "C01", "C04"],
+    ["C20", "C03", "C01", "C04", "C05"],
     floor=1,
-    default_props=["C01"],
+    default_props=["C01", "C05"],
 )
 def l10(ctx: Ctx):
     L = b09lib(ctx)
@@ -636,6 +636,8 @@ def l10(ctx: Ctx):
         # a function that reads a device record (POINT, JOYSTK, BUTTON): its operands no longer reach the device code
         if any(pt[1] not in ("num", "str", "int", "real", "byte", "bool") for pt in p.params):
             props_ = props_ + ["C04"]
+        # (the operand of a hoisted call is lost before its last use: C05 "no call or operand is lost")
+        props_ = props_ + ["C05"]
         ok = not hits
         ctx.ob(
             f"{name}",
